@@ -101,6 +101,8 @@ type Proc struct {
 	writes             int
 	cancelled          atomic.Bool // written by the controller, read by the process goroutine
 	startStep, endStep int64
+	ending             atomic.Bool  // the program has returned: what follows is the deferred rollback and release
+	out                *stampWriter // (read by observers only while the process is parked)
 }
 
 // ProcResult is what a simulated process leaves behind.
@@ -846,6 +848,8 @@ type stampWriter struct {
 	failAll bool
 	n       int
 	failed  int
+	// the last harness marker ("@X ...") the process printed
+	lastMarker string
 }
 
 func (w *stampWriter) Write(b []byte) (int, error) {
@@ -857,6 +861,9 @@ func (w *stampWriter) Write(b []byte) (int, error) {
 		}
 	}
 	w.buf.Write(b)
+	if bytes.HasPrefix(b, []byte("@")) {
+		w.lastMarker = strings.TrimSpace(string(b))
+	}
 	w.st = append(w.st, OutStamp{Step: w.k.step.Load(), Time: time.Since(w.k.start), Text: string(b)})
 	return len(b), nil
 }
